@@ -293,3 +293,32 @@ Theorem C15_wait_procs_truth_blind : forall kos fuel order b1 b2 tmo rounds star
   wait_procs kos (CbOk b1) fuel order tmo rounds start = wait_procs kos (CbOk b2) fuel order tmo rounds start.
 Proof. exact wait_procs_truth_blind. Qed.
 Print Assumptions C15_wait_procs_truth_blind.
+
+(* 12. ALIASED input of wait_procs.  `input` lists the handles passed in `procs` by the process each one names:
+   the same object twice, or several equal objects of one process, are repeated entries.  `alive = set(procs)`
+   keeps one handle per process, so (for EVERY kernel and iteration order): the returned lists are duplicate-free
+   and disjoint, they partition the set of DISTINCT processes of the input (len(gone) + len(alive) = their number),
+   returncode is assigned exactly once per gone process and the callback calls are exactly the gone list *)
+Theorem C15_wait_procs_of_partition : forall kos cb fuel order,
+  (forall r l, Permutation (order r l) l) ->
+  forall input tmo rounds start gone alive g,
+  wait_procs_of kos cb fuel order input tmo rounds start = (None, gone, alive, g) ->
+  NoDup gone /\ NoDup alive /\ (forall i, In i gone -> ~ In i alive) /\
+  (forall i, In i input <-> In i gone \/ In i alive) /\
+  (length gone + length alive = length (nodup Nat.eq_dec input))%nat /\
+  map fst (g_rc g) = rev gone /\
+  g_cb g = match cb with CbOk _ => rev gone | _ => [] end.
+Proof. exact wait_procs_of_partition. Qed.
+Print Assumptions C15_wait_procs_of_partition.
+
+(* ... and the whole oracle the harness applies (partition over the distinct processes, every returncode right and
+   not early, one callback per gone process, deadline) holds of every such run over wf processes *)
+Theorem C15_wait_procs_of_meets_oracle : forall ps cb fuel order,
+  (forall r l, Permutation (order r l) l) -> forallb wf_proc ps = true ->
+  forall input tmo rounds start exc gone alive g,
+  (forall x, In x input -> (x < length ps)%nat) ->
+  wait_procs_of (map to_ko ps) cb fuel order input tmo rounds start = (exc, gone, alive, g) ->
+  exc <> Some ROutOfFuel ->
+  spec_procs_in input ps cb start tmo exc gone alive (g_rc g) (g_cb g) (g_now g) = true.
+Proof. exact wait_procs_of_meets_oracle. Qed.
+Print Assumptions C15_wait_procs_of_meets_oracle.
